@@ -14,17 +14,22 @@ I(m) == PIns(m, <<>>)
 Args == { I("a"), PIns("a", <<OLit("x")>>), PAnd(<<I("a"), I("b")>>), POr(<<I("a"), I("b")>>),
           PNot(I("a")),
           \* an argument that carries its own repetition: X = (a|b){2}, (a|b){0,1} (matches everywhere), a{2}
-          WithTimes(POr(<<I("a"), I("b")>>), 2, 2), WithTimes(POr(<<I("a"), I("b")>>), 0, 1), WithTimes(I("a"), 2, 2) }
+          WithTimes(POr(<<I("a"), I("b")>>), 2, 2), WithTimes(POr(<<I("a"), I("b")>>), 0, 1), WithTimes(I("a"), 2, 2),
+          \* double negation: $not [$not [X]] consumes ONE instruction at which X matches, whatever X spans
+          PNot(WithTimes(I("a"), 2, 2)), PNot(WithTimes(I("a"), 0, 1)), PNot(POr(<<PAnd(<<I("a"), I("b")>>), I("p")>>)) }
 N(x) == PNot(x)
 PatternsI == UNION { { PAnd(<<N(x), I("q")>>), PAnd(<<I("p"), N(x), I("q")>>), PAnd(<<I("p"), N(x)>>),
                        PAnd(<<N(x)>>), PAnd(<<I("p"), WithTimes(N(x), 2, 2), I("q")>>),
                        PAnd(<<WithTimes(N(x), 1, 2), I("q")>>), PAnd(<<N(x), N(x)>>),
                        PAnd(<<N(x), N(I("q"))>>), PAnd(<<POr(<<N(x), I("p")>>), I("q")>>) } : x \in Args }
+             \* another item with exactly the bounds of the $not argument (bounds are values, not shared objects)
+             \cup { PAnd(<<WithTimes(I("p"), 1, 2), N(WithTimes(I("a"), 1, 2)), I("q")>>),
+                    PAnd(<<N(WithTimes(I("a"), 1, 2)), WithTimes(I("p"), 1, 2), I("q")>>) }
 BodiesI == { <<"a", <<>> >>, <<"a", <<"x">> >>, <<"b", <<>> >>, <<"p", <<>> >>, <<"q", <<>> >> }
 ListingsI == ListingsOver(BodiesI, 0, MaxListing)
 
 X == OLit("x")  Y == OLit("y")  Z == OLit("z")
-OArgs == { X, OOr(<<X, Y>>), OLit("xy"), WithTimes(OOr(<<X, Y>>), 2, 2) }
+OArgs == { X, OOr(<<X, Y>>), OLit("xy"), WithTimes(OOr(<<X, Y>>), 2, 2), ONot(WithTimes(OOr(<<X, Y>>), 2, 2)), ONot(X) }
 PatternsO == UNION { { PAnd(<<PIns("m", <<ONot(g)>>)>>), PAnd(<<PIns("m", <<ONot(g), Y>>)>>),
                        PAnd(<<PIns("m", <<Z, ONot(g)>>)>>), PAnd(<<PIns("m", <<ONot(g)>>), I("q")>>),
                        PAnd(<<PIns("m", <<ONot(g), ONot(g)>>)>>),
